@@ -548,15 +548,15 @@ theorem runWithdraw_ok (w w' : WSt) (stake : Option Addr) (signer : Addr) (value
 
 theorem withdrawTx_ok (w w' : WSt) (curOK : Bool) (stake : Option Addr) (signer : Addr)
     (value charge : Int) (h : withdrawTx w curOK stake signer value charge = .ok w') :
-    0 ≤ value ∧ ∃ w1, runWithdraw w stake signer value = .ok w1 ∧
+    (0 ≤ value ∧ value < 9223372036854775808) ∧ ∃ w1, runWithdraw w stake signer value = .ok w1 ∧
       w' = { w1 with signer := w1.signer - charge } := by
   unfold withdrawTx at h
   split at h
   · cases h
   · rename_i hv
-    have hv' : 0 ≤ value := by
+    have hv' : 0 ≤ value ∧ value < 9223372036854775808 := by
       simp [validateWithdraw] at hv
-      exact hv.2
+      exact ⟨hv.1.2, hv.2.2⟩
     split at h
     · cases h
     · rename_i w1 hr
